@@ -672,6 +672,8 @@ def free_running(ctx, inplace, quick):
                     diff = [] if dg is None else [f for f in set(dg) | set(ref[anns[i]]) if dg.get(f) != ref[anns[i]].get(f)]
                     key = KEY_INPLACE if (inplace and "JSONDecodeError" in log) else None
                     if rc == 0 and dg is not None and len(dg.get("S.read_assignments.tsv.gz", [])) <= 3 and "without index files" in rname: key = KEY_REFIDX
+                    # the loud variant of the same window: pyfaidx opened the half-written index and does not know the chromosome at all
+                    if rc != 0 and "without index files" in rname and "pyfaidx" in log and re.search(r"KeyError: '\S+ not in \S+'", log): key = KEY_REFIDX
                     ctx.violation(key, "a run started together with %d others under one HOME %s" % (len(anns) - 1, "failed (exit code %d)" % rc if rc != 0 else "produced other results than alone"),
                                   {"round": rname, "run": i, "annotation": anns[i], "exit_code": rc, "differing_files": diff, "log_tail": log[-1200:]})
             cfg = os.path.join(home, ".config", "IsoQuant", "db_config.json")
